@@ -226,6 +226,9 @@ class C14Spec(c01.C01Spec):
         conf['useFork'] = False
         cfg['placement'] = 'memory'
         conf['tcp_keepalive'] = rng.choice([[1, 1, 2], [2, 1, 3], [16, 3, 5], [60, 10, 3]])
+        # (chunking batch sizes are C11's subject: with one-byte chunks a restarted empty follower is sent its leader's whole
+        # log in some hundred messages per entry and a probe waits behind 150 KB of backlog - bandwidth is a premise here)
+        conf['appendEntriesBatchSizeBytes'] = max(conf['appendEntriesBatchSizeBytes'], 1024)
         conf['connectionTimeout'] = max(conf['raftMaxTimeout'], rng.choice([1.5, 3.5]))
         conf['connectionRetryTime'] = rng.choice([0, 0.5, 2.0])
         s = cfg['sched']
